@@ -99,6 +99,11 @@ CHECKS = {
     note="Trusted: TLC, Denote, drv_config.cpp (macro-instantiated kinds over a fixed value set). The run-time kinds additionally run the complete tables of C01, C05, C06, C11, C19, C20. The NMTOOLS_DISABLE_STL build is attempted in the thorough tier only.",
     technique="single TLA+ reference semantics; trace validation by TLC of the same cases under every configuration",
     design="5/C09"),
+ "C02": dict(
+    text="Spec level: every operator of the reference semantics reads its operands through Base.At, which asserts that the source multi-index lies inside the operand's shape; TLC evaluates this on every case of the law models (footprint of every view stays inside its operands). Code level: the accepted-argument halves of the C03/C04/C05/C06/C08/C16/C17 tables and seeded larger cases run on drivers built with AddressSanitizer, UndefinedBehaviourSanitizer and bounds-checked standard containers, reading every element of every result; any sanitizer report, bounds assertion, out_of_range exception or signal becomes a crash event, which TraceOps.tla never accepts.",
+    note="Trusted: TLC, g++ 12 sanitizers and _GLIBCXX_ASSERTIONS as event sources (the specification decides). No NMTOOLS_VERIF hooks were added: a per-axis index beyond its extent that stays inside the buffer is not visible here (it changes the element read, which C03-C08 detect). SIMD packed accesses are C12's, kernel-body writes C13's. The crashing input classes of the value properties are listed as known findings here too.",
+    technique="TLA+ reference semantics with an in-shape assertion on every operand read, checked by TLC; trace validation (no crash event accepted) of sanitized executions of the real code",
+    design="5/C02"),
 }
 
 NOT_APPLICABLE = {}
